@@ -82,36 +82,39 @@ def run_property(pid, tier, seed, only=None, keep=False, nworkers=16):
                     print("replayer build failed:", err)
                     exes = ()
             j = r.job
-            vals = decode_inputs(r.cex, j.n_inputs)
+            vals = []
             verdict, text = ("error", "no counterexample values")
             custom = getattr(mod, "custom_replay", None)
-            cands = [c[1] for c in (r.cex_all or [])] or ([r.cex] if r.cex is not None else [])
-            rank = {"reproduced": 4, "unrealised": 3, "holds": 2, "inadmissible": 1, "error": 0}
-            best = None
-            for cand in cands[:6]:
-                if not exes:
-                    break
-                v = decode_inputs(cand, j.n_inputs)
-                if j.replay == "body":
-                    vd, tx = kani.replay_native(exes, j.body, j.params, v)
-                elif custom:
-                    vd, tx = custom(j, v, exes)
-                else:
-                    continue
-                if best is None or rank.get(vd, 0) > rank.get(best[0], 0):
-                    best = (vd, tx, v)
-                if vd == "reproduced":
-                    break
-            if best:
-                verdict, text, vals = best
-            if verdict != "reproduced" and exes and hasattr(mod, "fallback_candidates"):
-                # the solver reported a failed check but no usable input values came back (trace generation timed out, or the values
-                # belong to an abstract environment): confirm on a grid of concrete inputs of the same harness body, natively
+            # 1. cheap: a grid of concrete inputs of the same harness body, natively (the solver's failed check is what flags the obligation;
+            #    the grid only finds a real input)
+            if exes and hasattr(mod, "fallback_candidates") and j.replay == "body":
                 for v in mod.fallback_candidates(j):
                     vd, tx = kani.replay_native(exes[:1], j.body, j.params, v)
                     if vd == "reproduced":
                         verdict, text, vals = vd, tx + " [input found by the native candidate grid after the solver flagged the obligation]", v
                         break
+            # 2. otherwise the trace run: the solver's own input values
+            if verdict != "reproduced":
+                kani.playback(scr, r)
+                rank = {"reproduced": 4, "unrealised": 3, "holds": 2, "inadmissible": 1, "error": 0}
+                best = None
+                cands = [c[1] for c in (r.cex_all or [])] or ([r.cex] if r.cex is not None else [])
+                for cand in cands[:6]:
+                    if not exes:
+                        break
+                    v = decode_inputs(cand, j.n_inputs)
+                    if j.replay == "body":
+                        vd, tx = kani.replay_native(exes, j.body, j.params, v)
+                    elif custom:
+                        vd, tx = custom(j, v, exes)
+                    else:
+                        continue
+                    if best is None or rank.get(vd, 0) > rank.get(best[0], 0):
+                        best = (vd, tx, v)
+                    if vd == "reproduced":
+                        break
+                if best:
+                    verdict, text, vals = best
             r.replay = {"verdict": verdict, "text": text, "inputs": [str(v) for v in vals]}
             if verdict == "reproduced":
                 role = mod.finding_role(j, vals, text) if hasattr(mod, "finding_role") else None
